@@ -159,6 +159,12 @@ def floors(tier):
         "histories_with_failure": 60 * k,
         "initial_points_with_conflicting_constant": 100 * k,
         "initial_points_with_key_outside_space": 60 * k,
+        "restricted_lists_with_duplicate_entries": 25 * k,
+        "exhaustion_decided_on_restricted_list_with_duplicates": 8 * k,
+        "restricted_lists_with_duplicates_fully_suggested": 20 * k,
+        "dehb_with_searcher:random": 8 * k,
+        "dehb_with_searcher:bayesopt": 3 * k,
+        "dehb_suggestions_beyond_first_bracket_with_searcher": 100 * k,
         "decided:cube_corner_decode": 15000 * k,
         "cube_corner_decode_clipped_onto_log_bound": 150 * k,
         "gp_suggestion_clipped_onto_non_round_tripping_log_bound": 8 * k,
@@ -645,6 +651,11 @@ def gen_rc(seed, desc, space, matchstr):
         out.append(cfg)
         if len(out) == n:
             break
+    if out and rng.random() < 0.5:
+        # rows drawn with replacement from a table: 10-50 % of the entries appear more than once (legal input: the twin is
+        # rejected through the exclusion list); the finite space is the set of DISTINCT entries
+        for _ in range(max(1, int(len(out) * rng.uniform(0.1, 0.5)))):
+            out.insert(rng.randint(0, len(out)), dict(rng.choice(out)))
     return out
 
 
@@ -752,6 +763,7 @@ class Oracle:
         self.dehb_base = None  # size of the base rung of DEHB's first bracket
         self.nonfinite_done = set()  # trials that finished (or were stopped / paused) on a NaN / inf metric value
         self.rc_set = None  # restrict_configurations (tuples): the finite set the searcher is restricted to
+        self.rc_has_duplicates = False
         # a finite range whose rounded values collide lists the same value twice (FiniteRange.values)
         self.grid_sfx = ":finite_range_lists_a_value_twice" if any(len(set(v)) < len(v) for v in self.values.values()) else ""
 
@@ -759,6 +771,9 @@ class Oracle:
         self.rc_set = {tuple(cast_given(self.desc[k], c[k]) for k in self.hp) for c in rc}
         self.rc_list = [tuple(cast_given(self.desc[k], c[k]) for k in self.hp) for c in rc]
         self.size = len(self.rc_set)
+        self.rc_has_duplicates = len(self.rc_list) > len(self.rc_set)
+        if self.rc_has_duplicates:
+            self.o.count("restricted_lists_with_duplicate_entries")
         self.continuous = False
         self.below_resolution = False
 
@@ -825,8 +840,11 @@ class Oracle:
             self.ref = [(c, g) for c, g in full if tuple(c[k] for k in self.hp) in self.rc_set]
             o.count("initial_outside_restricted_list_dropped", len(full) - len(self.ref))
             for j, (c, _) in enumerate(self.ref):
-                if self.rc_list.index(tuple(c[k] for k in self.hp)) != j:
+                t_ = tuple(c[k] for k in self.hp)
+                if self.rc_list.index(t_) != j:
                     o.count("initial_from_restricted_list_at_other_position")
+                if self.rc_list.count(t_) > 1:
+                    o.count("initial_point_with_twin_in_restricted_list")
         if self.continuous and len(self.ref) > 1:
             # two different initial points that agree to 7 significant digits: equal under the library's documented
             # notion of (approximate) equality (Domain.match_string) - whether the later one is a duplicate is
@@ -1032,6 +1050,8 @@ class Oracle:
             o.count(f"exhausted:{self.kind}")
             if self.rc_set is not None:
                 o.count("exhausted_restricted_sets")
+                if self.rc_has_duplicates:
+                    o.count("exhaustion_decided_on_restricted_list_with_duplicates")
 
     # -- grid
     def grid_dims(self):
@@ -1285,6 +1305,7 @@ def expand(spec):
             p["rungs_first_bracket"] = first
             p["support_pause_resume"] = rng.random() < 0.7
             p["fail_rate"] = 0.0
+            p["dehb_searcher"] = None
         else:
             nb = rng.randint(1, R)
             systems = [first]
@@ -1360,6 +1381,26 @@ def expand(spec):
                   "max_t": 1 if kind == "bayesopt" else 2, "checkpointing": True,
                   "hb": {"type": "stopping", "mode": p["mode"], "grace_period": 1, "reduction_factor": 2, "max_t": 2,
                          "brackets": 2 if kind == "hypertune" else 1, "rung_system_per_bracket": False}})
+    # DEHB with a searcher object (documented option; default is the built-in 'random_encoded' sampler): small discrete
+    # space, long enough to leave the first bracket, so that mutation / cross-over offspring (which often decode to an
+    # earlier configuration) meet configurations drawn by the searcher
+    r6 = random.Random(spec["seed"] * 134775813 % (2 ** 32) + 3)
+    if kind == "dehb" and "space" not in spec and r6.random() < 0.4:
+        n1, n2 = r6.randint(4, 7), r6.randint(3, 6)
+        dd = {"k": {"ctor": "randint", "lower": 1, "upper": n1}}
+        if r6.random() < 0.6:
+            dd["c"] = {"ctor": "choice", "categories": ["a", "b", "c", "d", "e", "f"][:n2]}
+        else:
+            dd["m"] = {"ctor": "finrange", "lower": 0.0, "upper": 1.0, "size": n2}
+        if r6.random() < 0.3:
+            dd["u"] = {"ctor": "uniform", "lower": 0.25, "upper": 0.25}
+        if r6.random() < 0.5:
+            dd["dataset"] = {"ctor": CONST, "value": "abc"}
+        first = r6.choice([[[9, 1], [3, 3], [1, 9]], [[4, 1], [2, 2], [1, 4]], [[3, 1], [1, 3]], [[6, 1], [2, 3]]])
+        p.update({"space": dd, "dehb_searcher": r6.choice(["random", "random", "bayesopt"]), "rungs_first_bracket": first,
+                  "max_t": first[-1][1], "exhaust": True, "max_events": r6.randint(150, 320), "n_workers": r6.randint(1, 3),
+                  "use_mra": r6.random() < 0.3, "support_pause_resume": r6.random() < 0.7, "fail_rate": 0.0,
+                  "search_options": dict(CHEAP_GP)})
     # optimum in a corner of a log / reverse-log scaled box whose bounds do not survive exp(log(b)): the local
     # optimisation of the acquisition function ends on the box boundary and the decoded value must still be a member
     r5 = random.Random(spec["seed"] * 22695477 % (2 ** 32) + 7)
@@ -1566,6 +1607,10 @@ def build_scheduler(p, space, pte, seed):
         if kind == "sync_hb":
             return sy.SynchronousHyperbandScheduler(
                 space, bracket_rungs=[[tuple(x) for x in b] for b in p["bracket_rungs"]], searcher="random", **kw)
+        if p.get("dehb_searcher"):
+            kw["searcher"] = p["dehb_searcher"]
+            if p["dehb_searcher"] == "bayesopt":
+                kw["search_options"] = _search_options(p, p.get("search_options") or CHEAP_GP)
         return sy.DifferentialEvolutionHyperbandScheduler(
             space, rungs_first_bracket=[tuple(x) for x in p["rungs_first_bracket"]],
             support_pause_resume=p["support_pause_resume"], **kw)
@@ -1798,6 +1843,10 @@ class Monitor:
                 o.inconclusive("dehb_next_job_not_observed")
             else:
                 b, rung = self.joblog[0]
+                if self.p.get("dehb_searcher"):
+                    o.count("dehb_suggestions_with_searcher")
+                    if b > 0:
+                        o.count("dehb_suggestions_beyond_first_bracket_with_searcher")
                 if b == 0 and rung > 0:
                     fresh, exempt, tag = False, True, "P"  # first-bracket promotion issued under a new trial id
                     o.count("dehb_promotion_as_new_trial")
@@ -1856,6 +1905,8 @@ def run_scheduler_case(spec, p, o):
     orc.pte = pte
     if kind == "dehb":
         orc.dehb_base = p["rungs_first_bracket"][0][0]
+        if p.get("dehb_searcher"):
+            o.count("dehb_with_searcher:" + p["dehb_searcher"])
     orc.make_reference()
     seed = spec["seed"] % (2 ** 31)
     try:
@@ -2046,6 +2097,8 @@ def run_case(spec):
     if orc.rc_set is not None and len(orc.by_tpl) >= orc.size and not orc.viol_keys - {
             m for m in orc.viol_keys if m.endswith(":restricted_set_used_up")}:
         o.count("restricted_sets_fully_suggested")
+        if orc.rc_has_duplicates:
+            o.count("restricted_lists_with_duplicates_fully_suggested")
         o.count("restricted_sets_fully_suggested:" + p["kind"])
     gdesc = _gen_format(orc.desc)
     if gdesc is not None:
